@@ -11,9 +11,9 @@ func (c *ctx) checkTyping() {
 		if in.bad || in.fn != nil {
 			continue
 		}
-		if in.typ != 0 && in.op != 54 {
-			if _, known := opTable[in.op]; known {
-				c.check(RResultType, m.types[in.typ] != nil, in, "result type operand %%%d is not a type", in.typ)
+		if hasResultType(in.op) && in.op != 54 {
+			if !c.check(RResultType, m.types[in.typ] != nil, in, "result type operand %%%d is not a type", in.typ) {
+				continue
 			}
 		}
 		switch {
@@ -36,7 +36,7 @@ func (c *ctx) checkTyping() {
 				if _, known := opTable[in.op]; !known {
 					continue
 				}
-				if in.typ != 0 {
+				if hasResultType(in.op) {
 					if !c.check(RResultType, m.types[in.typ] != nil, in, "result type operand %%%d is not a type", in.typ) {
 						continue
 					}
@@ -328,7 +328,7 @@ func (c *ctx) typeInst(f *function, b *block, in *inst) {
 		}
 		for i := 2; i < 4; i++ {
 			if t, ok := argT(RBitOps, i); ok {
-				c.check(RBitOps, m.types[t].kind == tkInt, in, "Offset/Count operand %d has type %s, must be an integer scalar", i+1, m.describe(t))
+				c.check(RBitOps, m.types[t].k() == tkInt, in, "Offset/Count operand %d has type %s, must be an integer scalar", i+1, m.describe(t))
 			}
 		}
 		c.combo(in, rt)
@@ -341,7 +341,7 @@ func (c *ctx) typeInst(f *function, b *block, in *inst) {
 		}
 		for i := 1; i < 3; i++ {
 			if t, ok := argT(RBitOps, i); ok {
-				c.check(RBitOps, m.types[t].kind == tkInt, in, "Offset/Count operand %d has type %s, must be an integer scalar", i+1, m.describe(t))
+				c.check(RBitOps, m.types[t].k() == tkInt, in, "Offset/Count operand %d has type %s, must be an integer scalar", i+1, m.describe(t))
 			}
 		}
 		c.combo(in, rt)
@@ -498,8 +498,8 @@ func (c *ctx) typeInst(f *function, b *block, in *inst) {
 			return
 		}
 		a := m.shapeOf(t)
-		rp := m.types[rt].kind == tkPointer
-		ap := m.types[t].kind == tkPointer
+		rp := m.types[rt].k() == tkPointer
+		ap := m.types[t].k() == tkPointer
 		numR := R.isInt() || R.isFloat()
 		numA := a.isInt() || a.isFloat()
 		c.check(RBitcast, rp || numR, in, "result type %s is not a pointer or numerical scalar/vector", m.describe(rt))
@@ -583,7 +583,7 @@ func (c *ctx) typeInst(f *function, b *block, in *inst) {
 		if c.check(RVecDynamic, v.kind == tkVector, in, "Vector operand has type %s", m.describe(tv)) {
 			c.check(RVecDynamic, v.elem == rt, in, "result type %s is not the component type of %s", m.describe(rt), m.describe(tv))
 		}
-		c.check(RVecDynamic, m.types[ti].kind == tkInt, in, "Index has type %s, must be an integer scalar", m.describe(ti))
+		c.check(RVecDynamic, m.types[ti].k() == tkInt, in, "Index has type %s, must be an integer scalar", m.describe(ti))
 		c.combo(in, tv, ti)
 	case 78: // OpVectorInsertDynamic
 		tv, ok1 := argT(RVecDynamic, 0)
@@ -596,7 +596,7 @@ func (c *ctx) typeInst(f *function, b *block, in *inst) {
 		if c.check(RVecDynamic, v.kind == tkVector && tv == rt, in, "Vector operand type %s must be a vector equal to result type %s", m.describe(tv), m.describe(rt)) {
 			c.check(RVecDynamic, v.elem == tc, in, "Component has type %s, vector component type is %s", m.describe(tc), m.describe(v.elem))
 		}
-		c.check(RVecDynamic, m.types[ti].kind == tkInt, in, "Index has type %s, must be an integer scalar", m.describe(ti))
+		c.check(RVecDynamic, m.types[ti].k() == tkInt, in, "Index has type %s, must be an integer scalar", m.describe(ti))
 		c.combo(in, tv, ti)
 
 	case 65, 66: // OpAccessChain / OpInBoundsAccessChain
@@ -609,7 +609,7 @@ func (c *ctx) typeInst(f *function, b *block, in *inst) {
 		p := m.types[tp]
 		if c.check(RLoad, p.kind == tkPointer, in, "Pointer operand has type %s", m.describe(tp)) {
 			c.check(RLoad, p.elem == rt, in, "result type %s differs from the pointee type %s", m.describe(rt), m.describe(p.elem))
-			c.check(RLoad, m.types[rt].kind != tkVoid, in, "load of void")
+			c.check(RLoad, m.types[rt].k() != tkVoid, in, "load of void")
 			c.combo(in, tp, rt)
 		}
 		c.checkMemAccess(RLoad, in, 1)
@@ -647,7 +647,7 @@ func (c *ctx) typeInst(f *function, b *block, in *inst) {
 			return
 		}
 		p := m.types[tp]
-		if !c.check(RArrayLength, p.kind == tkPointer && m.types[p.elem] != nil && m.types[p.elem].kind == tkStruct, in, "Structure operand has type %s, must be a pointer to a struct", m.describe(tp)) {
+		if !c.check(RArrayLength, p.kind == tkPointer && m.types[p.elem] != nil && m.types[p.elem].k() == tkStruct, in, "Structure operand has type %s, must be a pointer to a struct", m.describe(tp)) {
 			return
 		}
 		st := m.types[p.elem]
@@ -677,7 +677,7 @@ func (c *ctx) typeInst(f *function, b *block, in *inst) {
 			}
 		}
 	case 253: // OpReturn
-		c.check(RReturn, m.types[f.def.typ] != nil && m.types[f.def.typ].kind == tkVoid, in, "OpReturn in a function returning %s", m.describe(f.def.typ))
+		c.check(RReturn, m.types[f.def.typ] != nil && m.types[f.def.typ].k() == tkVoid, in, "OpReturn in a function returning %s", m.describe(f.def.typ))
 	case 254: // OpReturnValue
 		if t, ok := argT(RReturn, 0); ok {
 			c.check(RReturn, t == f.def.typ, in, "value type %s differs from the function's return type %s", m.describe(t), m.describe(f.def.typ))
@@ -686,7 +686,7 @@ func (c *ctx) typeInst(f *function, b *block, in *inst) {
 		c.typePhi(f, b, in)
 	case 250: // OpBranchConditional
 		if t, ok := argT(RBranchCond, 0); ok {
-			c.check(RBranchCond, m.types[t].kind == tkBool, in, "condition has type %s, must be a bool scalar", m.describe(t))
+			c.check(RBranchCond, m.types[t].k() == tkBool, in, "condition has type %s, must be a bool scalar", m.describe(t))
 		}
 		n := in.nargs()
 		c.check(RBranchCond, n == 3 || n == 5, in, "branch weights must be absent or exactly two (got %d operands)", n)
@@ -731,7 +731,9 @@ func (c *ctx) typeInst(f *function, b *block, in *inst) {
 		}
 		col := m.types[mt.elem]
 		c.check(RMatrix, col != nil && rtt.elem == col.elem && v.elem == col.elem, in, "component types differ among %s = %s x %s", m.describe(rt), m.describe(tv), m.describe(tm))
-		c.check(RMatrix, col != nil && v.count == col.count, in, "vector has %d components, matrix columns have %d", v.count, col.count)
+		if col != nil {
+			c.check(RMatrix, v.count == col.count, in, "vector has %d components, matrix columns have %d", v.count, col.count)
+		}
 		c.check(RMatrix, rtt.count == mt.count, in, "result has %d components, matrix has %d columns", rtt.count, mt.count)
 		c.combo(in, tv, tm)
 	case 145: // OpMatrixTimesVector: matrix x vector (cols) -> vector (rows)
@@ -965,7 +967,7 @@ func (c *ctx) typeAccessChain(in *inst) {
 			bad = true
 			return 0, false
 		}
-		if !c.check(RAccessChain, m.types[ti].kind == tkInt, in, "index %d has type %s, must be an integer scalar", i, m.describe(ti)) {
+		if !c.check(RAccessChain, m.types[ti].k() == tkInt, in, "index %d has type %s, must be an integer scalar", i, m.describe(ti)) {
 			bad = true
 			return 0, false
 		}
@@ -1135,13 +1137,13 @@ func (c *ctx) typeImage(in *inst) {
 		if c.check(RImage, rt.kind == tkSampledImage, in, "result type %s is not an OpTypeSampledImage", m.describe(in.typ)) {
 			c.check(RImage, rt.elem == ti, in, "Image has type %s, the result type wraps %s", m.describe(ti), m.describe(rt.elem))
 		}
-		c.check(RImage, m.types[ts].kind == tkSampler, in, "Sampler operand has type %s", m.describe(ts))
+		c.check(RImage, m.types[ts].k() == tkSampler, in, "Sampler operand has type %s", m.describe(ts))
 	case 87, 88, 89, 90, 91, 92, 93, 94, 96, 97:
 		ts, ok := c.val(RImage, in, in.arg(0), "Sampled Image")
 		if !ok {
 			return
 		}
-		if !c.check(RImage, m.types[ts].kind == tkSampledImage, in, "Sampled Image operand has type %s", m.describe(ts)) {
+		if !c.check(RImage, m.types[ts].k() == tkSampledImage, in, "Sampled Image operand has type %s", m.describe(ts)) {
 			return
 		}
 		img := m.types[m.types[ts].elem]
@@ -1218,7 +1220,7 @@ func (c *ctx) typeImage(in *inst) {
 		if !ok {
 			return
 		}
-		if c.check(RImage, m.types[ts].kind == tkSampledImage, in, "operand has type %s", m.describe(ts)) {
+		if c.check(RImage, m.types[ts].k() == tkSampledImage, in, "operand has type %s", m.describe(ts)) {
 			c.check(RImage, m.types[ts].elem == in.typ, in, "result type %s is not the image type of %s", m.describe(in.typ), m.describe(ts))
 		}
 	case 103, 104, 106, 107:
@@ -1258,7 +1260,7 @@ func (c *ctx) typeImage(in *inst) {
 			return
 		}
 		p := m.types[tp]
-		if !c.check(RImage, p.kind == tkPointer && m.types[p.elem] != nil && m.types[p.elem].kind == tkImage, in, "Image operand has type %s, must be a pointer to an image", m.describe(tp)) {
+		if !c.check(RImage, p.kind == tkPointer && m.types[p.elem] != nil && m.types[p.elem].k() == tkImage, in, "Image operand has type %s, must be a pointer to an image", m.describe(tp)) {
 			return
 		}
 		if c.check(RImage, rt.kind == tkPointer && rt.sc == scImage, in, "result type %s is not a pointer with storage class Image", m.describe(in.typ)) {
@@ -1298,4 +1300,12 @@ func (c *ctx) checkImageOperands(in *inst) {
 	c.check(RImage, in.nargs()-k-1 == want, in, "image operands mask 0x%x needs %d ids, %d present", mask, want, in.nargs()-k-1)
 	c.check(RImage, mask&0x1 == 0 || mask&0x6 == 0, in, "Bias together with Lod/Grad")
 	c.check(RImage, mask&0x6 != 0x6, in, "Lod together with Grad")
+}
+
+// k is the nil-safe kind of a type.
+func (t *typ) k() typeKind {
+	if t == nil {
+		return 0
+	}
+	return t.kind
 }
